@@ -80,6 +80,15 @@ type parser.StopOnErr(n, err) returns (stop, cbError)
   ensures @stop-means-error stop ==> cbError != nil
   free ensures CbPrivate(n)
 
+// A callback that never stops the parse (lint).
+type parser.NeverStop(n, err) returns (stop, cbError)
+  requires @one-of (n != nil) == (err == nil)
+  modifies *
+  modifies ghost(cbLen, cbErr, cbNode, cbStop, cbRet, cbLineNo, cbLine, cbHeader, cbElems, cbNElems)
+  free ensures CbEvent(n, err, stop, cbError)      // definition of the ghost trace
+  ensures @never-stops !stop && cbError == nil
+  free ensures CbPrivate(n)
+
 // getMetadataPair builds a fresh pair from the text of a note line; it reads nothing but its argument
 func getMetadataPair returns (mp, err)
   props C08 C04
@@ -160,6 +169,38 @@ func ParseStreamCallback variant loaddb
     invariant @noerr forall j int :: {cbErr[j]} old(cbLen) <= j && j < cbLen ==> cbErr[j] == nil
     invariant @own node != nil ==> arr(node.Elements) >= privLo && (node.Metadata != nil ==> ref(node.Metadata) >= privLo && arr(*node.Metadata) >= privLo)
   }
+
+// ---------------------------------------------------------------------------------------------
+// ParseStreamCallback specialised by lint's callback: every error event is printed exactly once, in order
+// (prOf: event -> print, evOfPr: print -> event are ghost witnesses of the bijection)
+// ---------------------------------------------------------------------------------------------
+ghost prOf   seq[int]
+ghost evOfPr seq[int]
+
+func ParseStreamCallback variant lint
+  bind callback = lint.Lint$1
+  props C08 C09 C10
+  let out := payload(captured(callback, lc).ReporterConfig.Output)
+  modifies captured(callback, errorsFound)
+  modifies ghost(cbLen, cbErr, cbNode, cbStop, cbRet, cbLineNo, cbLine, cbHeader, cbElems, cbNElems, scRd, scPos, privLo, evOf, prOf, evOfPr, bufSticky, sinkFailed, sinkPend, prLen, prSink, prArg)
+  ensures @lc [C09] captured(callback, lc) == old(captured(callback, lc))
+  ensures @printed-once [C09] forall j int :: {cbErr[j]} old(cbLen) <= j && j < cbLen && cbErr[j] != nil ==> old(prLen) <= prOf[j] && prOf[j] < prLen && prArg[prOf[j]] == cbErr[j] && prSink[prOf[j]] == out && evOfPr[prOf[j]] == j
+  ensures @only-errors [C09] forall k int :: {prArg[k]} old(prLen) <= k && k < prLen ==> old(cbLen) <= evOfPr[k] && evOfPr[k] < cbLen && cbErr[evOfPr[k]] != nil && prOf[evOfPr[k]] == k && !typeis(prArg[k], "string")
+  ensures @in-order [C09] forall j1, j2 int :: {cbErr[j1], cbErr[j2]} old(cbLen) <= j1 && j1 < j2 && j2 < cbLen && cbErr[j1] != nil && cbErr[j2] != nil ==> prOf[j1] < prOf[j2]
+  ensures @never-stopped [C09] (result != nil ==> RdFailed(rd)) && (forall j int :: {cbStop[j]} old(cbLen) <= j && j < cbLen ==> !cbStop[j])
+  ensures @counted [C09] captured(callback, errorsFound) - old(captured(callback, errorsFound)) == prLen - old(prLen) && prLen >= old(prLen)
+  ensures @old-prints forall k int :: {prArg[k]} 0 <= k && k < old(prLen) ==> prArg[k] == old(prArg[k])
+  loop 1 {
+    invariant @lc captured(callback, lc) == old(captured(callback, lc)) && prLen >= old(prLen)
+    invariant @counted captured(callback, errorsFound) - old(captured(callback, errorsFound)) == prLen - old(prLen)
+    invariant @printed-once forall j int :: {cbErr[j]} old(cbLen) <= j && j < cbLen && cbErr[j] != nil ==> old(prLen) <= prOf[j] && prOf[j] < prLen && prArg[prOf[j]] == cbErr[j] && prSink[prOf[j]] == out && evOfPr[prOf[j]] == j
+    invariant @only-errors forall k int :: {prArg[k]} old(prLen) <= k && k < prLen ==> old(cbLen) <= evOfPr[k] && evOfPr[k] < cbLen && cbErr[evOfPr[k]] != nil && prOf[evOfPr[k]] == k && !typeis(prArg[k], "string")
+    invariant @in-order forall j1, j2 int :: {cbErr[j1], cbErr[j2]} old(cbLen) <= j1 && j1 < j2 && j2 < cbLen && cbErr[j1] != nil && cbErr[j2] != nil ==> prOf[j1] < prOf[j2]
+    invariant @old-prints forall k int :: {prArg[k]} 0 <= k && k < old(prLen) ==> prArg[k] == old(prArg[k])
+    invariant @own node != nil ==> arr(node.Elements) >= privLo && (node.Metadata != nil ==> ref(node.Metadata) >= privLo && arr(*node.Metadata) >= privLo)
+  }
+  ghost before dyncall 2 { set prOf := store(prOf, cbLen, prLen); set evOfPr := store(evOfPr, prLen, cbLen) }
+  ghost before dyncall 3 { set prOf := store(prOf, cbLen, prLen); set evOfPr := store(evOfPr, prLen, cbLen) }
 
 // ParseFileCallback: an unreadable file is an error; otherwise as ParseStreamCallback
 func ParseFileCallback
